@@ -207,6 +207,31 @@ def check(ctx):
             ctx.ob("iv.prepended", enc, r.ast, okl, "the returned value starts with the IV that was used" if okl else
                    "the IV used for encryption is not the leftmost part of the returned ciphertext", node=r)
     ctx.ob("iv.length", enc, "os.urandom(N)", N == 16, "16-byte IV (AES block size)" if N == 16 else "IV length is %s, not 16" % N)
+    # ... and every KeyFile.encrypt call runs the provider: what it returns is a SecureValue built in this call from this call's
+    # provider.encrypt(...) result -- never one issued earlier (the IV, and with it the whole ciphertext, would repeat)
+    kenc = model.method("KeyFile", "encrypt")
+    gk = an.cfg(kenc)
+    for r in returns_of(an, kenc):
+        if r.ast.value is None:
+            continue
+        bad = None
+        for k, pl in value_sources(kenc, r.ast.value, r):
+            fresh = False
+            if k == "expr" and isinstance(pl, ast.Call):
+                nn = gk.nodes_for(pl)
+                tg = an.targets(kenc, nn[0]) if nn else []
+                is_sv = ast.unparse(pl.func).split(".")[-1] == "SecureValue" or (bool(tg) and all(t.kind == "ctor" for t in tg))
+                if is_sv and pl.args:
+                    payload = pl.args[-1] if len(pl.args) >= 2 else next((kw.value for kw in pl.keywords if kw.arg == "ciphertext"), None)
+                    ps = value_sources(kenc, payload, nn[0] if nn else r) if payload is not None else []
+                    fresh = bool(ps) and all(k2 == "expr" and isinstance(p2, ast.Call) and isinstance(p2.func, ast.Attribute) and p2.func.attr == "encrypt"
+                                             for k2, p2 in ps)
+            if not fresh:
+                bad = pl if isinstance(pl, ast.AST) else k
+        ctx.ob("iv.fresh-per-encrypt", kenc, r.ast, bad is None,
+               "every call encrypts anew: the value returned is built from this call's provider.encrypt(...)" if bad is None else
+               "KeyFile.encrypt can return %s, a value that was not produced by encrypting in this call: equal plaintexts get the same IV and "
+               "ciphertext again" % (ast.unparse(bad)[:50] if isinstance(bad, ast.AST) else bad), node=r)
 
     # decrypt: split points
     g = an.cfg(dec)
